@@ -520,6 +520,7 @@ impl CatLens {
         let mut s_out = vec![];
         let mut t_out = vec![];
         let mut tset_out = vec![];
+        let mut size_incons: Vec<String> = vec![];
         let mut g_out = vec![];
         let mut cnt_out = vec![];
         let obsc = Consumer::new(Identifier::numeric(9999).unwrap());
@@ -582,6 +583,7 @@ impl CatLens {
                 }
                 let tid = Identifier::numeric(t.id).unwrap();
                 let mut topic_msgs = 0u64;
+                let mut topic_bytes = 0u64;
                 for p in &td.partitions {
                     let r = rt.block_on(a.poll_messages(&sid, &tid, Some(p.id), &obsc, &PollingStrategy::offset(0), 1000, false));
                     let n = match r {
@@ -602,6 +604,20 @@ impl CatLens {
                     }
                     topic_msgs += n;
                     cnt_out.push(json!([s.id, t.id, p.id, n]));
+                    // (every send is saved at once in this lens: the size a partition reports is the size of its log files)
+                    if run.scn.cfg.save_threshold == 1 {
+                        let pdir = format!("{}/streams/{}/topics/{}/partitions/{}", run.dir, s.id, t.id, p.id);
+                        let on_disk: u64 = std::fs::read_dir(&pdir).map(|it| it.filter_map(|e| e.ok())
+                            .filter(|e| e.file_name().to_string_lossy().ends_with(".log"))
+                            .map(|e| e.metadata().map(|m| m.len()).unwrap_or(0)).fold(0u64, |a, b| a.wrapping_add(b))).unwrap_or(0);
+                        if p.size.as_bytes_u64() != on_disk {
+                            size_incons.push(format!("partition {}/{}/{} reports {} bytes, {} in its log files", s.id, t.id, p.id, p.size.as_bytes_u64(), on_disk));
+                        }
+                        topic_bytes = topic_bytes.wrapping_add(on_disk);
+                    }
+                }
+                if run.scn.cfg.save_threshold == 1 && td.size.as_bytes_u64() != topic_bytes {
+                    size_incons.push(format!("topic {}/{} reports {} bytes, {} in its log files", s.id, t.id, td.size.as_bytes_u64(), topic_bytes));
                 }
                 if topic_msgs != td.messages_count {
                     incons.push(format!("topic {}/{} reports {} messages, partitions hold {}", s.id, t.id, td.messages_count, topic_msgs));
@@ -626,6 +642,14 @@ impl CatLens {
                 incons.push(format!("stream {} reports {} messages, topics hold {}", s.id, d.messages_count, stream_msgs));
             }
         }
+        // the server statistics: exact entity counts (one segment per partition here: the segments are far larger than any scenario)
+        let stats_out = match rt.block_on(a.get_stats()) {
+            Ok(st) => json!([st.streams_count, st.topics_count, st.partitions_count, st.segments_count, st.consumer_groups_count, st.messages_count]),
+            Err(e) => {
+                incons.push(format!("get_stats: {}", err_class(&e)));
+                json!([])
+            }
+        };
         let mut u_out = vec![];
         let users = rt.block_on(a.get_users()).map_err(|e| format!("get_users: {e}"))?;
         for u in &users {
@@ -686,7 +710,7 @@ impl CatLens {
             needles.dedup();
             journal_hits = crate::util::scan_files_for(&format!("{}/state", run.dir), &needles);
         }
-        Ok(json!({"journal_hits": journal_hits, "S": s_out, "T": t_out, "Tset": tset_out, "G": g_out, "Cnt": cnt_out, "U": u_out, "Mem": mem_out,
+        Ok(json!({"journal_hits": journal_hits, "S": s_out, "T": t_out, "Tset": tset_out, "stats": stats_out, "size_incons": size_incons, "G": g_out, "Cnt": cnt_out, "U": u_out, "Mem": mem_out,
                   "dS": d_s, "dT": d_t, "dP": d_p, "incons": incons}))
     }
 }
